@@ -47,6 +47,11 @@ CHECKS = {
     note="PARTIAL on the runtime: oracles are modelled as functions of the row's strings; wall-clock MCS time-outs under load and joblib/loky scheduling cannot be exhibited by the model (rows with conflicting recorded answers are reported timing_unstable). Additivity of statistics over partitions is checked by the oracle, not proved. Trusted: Coq kernel+vm_compute, recorders, joblib ordering (A8).",
     technique="Coq proof (write-back-by-id = map under the id invariant; row-local pipeline) + context-variation differential runs",
     design="7/C06"),
+ "C02": dict(
+    text="Machine-checked proof (Coq), string level on purpose. The full statement (every given molecule appears unchanged with its multiplicity on its side of the returned reaction) is REFUTED on the faithful model and on the code (C02_refuted_fused, C02_refuted_lost: RuleConstraint deletes the substrings '.[H]', '.[O]', '.OO' from the whole product side string, so a given hydroperoxide is fused with its neighbour and a given hydrogen peroxide is deleted) -- recorded known finding. C02_partial is proved for every oracle, every database whose SMILES are not cut by a marker (re-proved for the shipped database each run), every threshold and input: if no given product component after the first begins with a marker, the returned sides are the given sides with whole components appended (given molecules unchanged and in place, on both sides), input_reaction is the stripped input; rows rewritten by the reagent post-processing keep the post-processed sides in the same sense or fall back to the input. Rests on proved lemmas about Python's str.replace/split/count on dot-joined strings (replace of '.m' = filter on components). Correspondence: marker stream (peroxides, [H][H], explicit-H spellings at every position), corpus and generated runs replayed in the model inside Coq; RDKit-only canonical-multiset oracle on every row.",
+    note="Hypotheses of C02_partial: db_clean (generated obligation, vm_compute on the current file) and impute_clean (merged SMILES appended by the MCS stage has no component cut by a marker; evaluated inside Coq on every recorded answer, exceptions counted). What the reagent post-processing does to the molecules (it re-canonicalises both sides) is oracle-only. Domain: closed-shell molecules, no free [H]/[O] placeholders among the given molecules. Trusted: Coq kernel+vm_compute, recorders, RDKit oracle.",
+    technique="Coq proof (str.replace/split lemmas on component lists + per-row pipeline invariant) with refuted/partial split + marker-stream correspondence",
+    design="7/C02"),
  "C05": dict(
     text="Machine-checked proof (Coq). The full statement (one row per input row, in order, for every mixture of valid and malformed strings) is REFUTED on the faithful model and on the code (C05_refuted_filtered: a row whose side does not parse is dropped, later rows shift, the CLI's positional zip pairs pass-through values with the wrong reaction; C05_refuted_batch_lost: a string without exactly one '>>' raises in preprocess and its whole batch is lost) -- both are recorded known findings. Proved (C05_partial, C05_cli_passthrough_aligned, chunk lemmas): for every oracle/database/threshold, every batch size >= 1 and every list of well-formed rows the result has exactly one row per input in input order, each describing its input, and the CLI's pass-through pairing is aligned; DataLoader chunking loses/reorders nothing. Correspondence: all positions of every malformed kind in lists of length 1..4/5 x all batch sizes, list/dict/CSV/JSON sources and the CLI; string runs replayed through Model/Batch.rebalance over Model/Pipeline.run inside Coq.",
     note="Known findings C05/unparsable-filtered, C05/can_parse-raises, C05/cli-passthrough-misaligned are genuine defects recorded, not repaired (what a result row for an unparsable input should contain is a design decision). Any other loss/shift of rows is a VIOLATION. Trusted: Coq kernel+vm_compute, recorders, pandas/csv/json readers as exercised.",
